@@ -307,6 +307,54 @@ Section Job.
     apply (nodup_nth _ Hnd); rewrite ?names_length; try lia. exact E.
   Qed.
 
+  (* ================================================================ entering and leaving a job *)
+  Lemma ok_ex_grow w ex f : (~ ok w ex f) -> forall g, ok w ex g -> ok w (f :: ex) g.
+  Proof.
+    intros Hn g Hok. induction Hok as [g Hv Hex Ha Hb Hm Hd] using ok_ind2.
+    assert (Hokg : ok w ex g).
+    { apply ok_intro; auto. intros d Hin. destruct (Hd d Hin) as [A B]. split; [exact A|]. intro X. exact (proj1 (B X)). }
+    apply ok_intro; auto.
+    - intros [X|X]; [subst g; contradiction|contradiction].
+    - intros d Hin. destruct (Hd d Hin) as [A B]. split; [exact A|]. intro X. exact (proj2 (B X)).
+  Qed.
+
+  Lemma ok_ex_shrink w ex f : forall g, ok w (f :: ex) g -> ok w ex g.
+  Proof.
+    intros g Hok. induction Hok as [g Hv Hex Ha Hb Hm Hd] using ok_ind2.
+    apply ok_intro; auto.
+    - intro X. apply Hex. now right.
+    - intros d Hin. destruct (Hd d Hin) as [A B]. split; [exact A|]. intro X. exact (proj2 (B X)).
+  Qed.
+
+  Lemma JINV_enter w ex f :
+    JINV w ex -> valid w f -> watched (nm w f) = false -> ~ ok w ex f -> JINV w (f :: ex).
+  Proof.
+    intros ((Hw & Hmark) & Hx & Hc & Hu) Hv Hwt Hn.
+    split; [split; [exact Hw|]|split; [|split; [exact Hc|]]].
+    - intros g Hg Hex Ha Hm Hfl. apply ok_ex_grow; [exact Hn|]. apply Hmark; auto. intro X. apply Hex. now right.
+    - intros g Hg. destruct (Hx g Hg) as (A1 & A2 & A3 & A4 & A5). split; [exact A1|]. split; [exact A2|].
+      split; [exact A3|]. split; [exact A4|]. intro X. apply A5. intro Y. apply X. now right.
+    - intros x [<-|Hx']; [split; assumption|apply Hu; exact Hx'].
+  Qed.
+
+  Lemma JINV_leave w ex f :
+    JINV w (f :: ex) ->
+    (marked (ldw w f) = true -> r_failed (ldw w f) = None -> ok w ex f) ->
+    (r_ovr (get_row (dbs w) f) = false /\
+     (r_gen (get_row (dbs w) f) = true -> exists s, r_stamp (get_row (dbs w) f) = Some s /\
+        (stamp_eqb s (read_stamp w (nm w f)) = true \/ read_stamp w (nm w f) = SMissing))) ->
+    JINV w ex.
+  Proof.
+    intros ((Hw & Hmark) & Hx & Hc & Hu) Hself Hnoov.
+    split; [split; [exact Hw|]|split; [|split; [exact Hc|]]].
+    - intros g Hg Hex Ha Hm Hfl. destruct (Nat.eq_dec g f) as [->|Hne]; [auto|].
+      apply (ok_ex_shrink w ex f). apply Hmark; auto. intros [X|X]; [congruence|contradiction].
+    - intros g Hg. destruct (Hx g Hg) as (A1 & A2 & A3 & A4 & A5). split; [exact A1|]. split; [exact A2|].
+      split; [exact A3|]. split; [exact A4|]. intro X. destruct (Nat.eq_dec g f) as [->|Hne]; [exact Hnoov|].
+      apply A5. intros [Y|Y]; [congruence|contradiction].
+    - intros x Hx'. apply Hu. now right.
+  Qed.
+
   (* ---------------------------------------------------------------- files other than a job's own *)
   (* ok looks at the files of settled rows and at the watched paths only *)
   Lemma ok_mono_fs w w' ex (touched : name -> bool) :
@@ -677,13 +725,14 @@ Section Job.
     match f_script fl with Some sc => sc | None => default_script end.
 
   Definition PROJ (w : world) : Prop :=
-    (forall t, watched t = false -> reserved t = false) /\
+    (forall n, watched n = true -> reserved n = false) /\
     (forall t c, watched t = false -> In c (do_candidates (updepth w) t) ->
        watched (cand_key (updepth w) c) = true /\ reserved (cand_key (updepth w) c) = false /\
        (rk (cand_key (updepth w) c) < rk t)%nat) /\
     (forall t c fl, watched t = false -> In c (do_candidates (updepth w) t) ->
        fs_get (fs w) (cand_key (updepth w) c) = Some fl ->
-       plain (script_of fl) /\ forall d, In d (s_deps (script_of fl)) -> watched d = false /\ (rk d < rk t)%nat).
+       plain (script_of fl) /\
+       forall d, In d (s_deps (script_of fl)) -> watched d = false /\ reserved d = false /\ (rk d < rk t)%nat).
 
   Definition wsame (w w' : world) : Prop :=
     updepth w' = updepth w /\ forall n, watched n = true -> fs_get (fs w') n = fs_get (fs w) n.
@@ -907,6 +956,292 @@ Section Job.
         destruct M as (M1 & M2 & M3). split; [now right|]. split; [exact M2|exact M3].
   Qed.
 
+  (* ---------------------------------------------------------------- a row outside [ex] becomes a settled leaf *)
+  Lemma stamp_eqb_refl s : stamp_eqb s s = true.
+  Proof. destruct s; cbn; [reflexivity|]. now rewrite !N.eqb_refl. Qed.
+
+  Lemma set_static_facts w r :
+    let r' := set_static R w r in
+    r_name r' = r_name r /\ r_gen r' = false /\ r_ovr r' = false /\ r_failed r' = None /\ r_csum r' = None /\
+    r_checked r' = r_checked r /\
+    (exists s, r_stamp r' = Some s /\ stamp_eqb s (read_stamp w (r_name r)) = true) /\
+    (r_changed r' = r_changed r /\ r_stamp r <> None \/ r_changed r' = Some R).
+  Proof.
+    cbv zeta. unfold set_static, update_stamp.
+    destruct (ostamp_eqb (r_stamp r) (read_stamp w (r_name r))) eqn:E; cbn [upd_row set_changed r_name r_gen r_ovr r_failed r_csum r_checked r_stamp r_changed].
+    - repeat split; auto.
+      + unfold ostamp_eqb in E. destruct (r_stamp r) as [s|]; [exists s; auto|discriminate].
+      + left. split; [reflexivity|]. unfold ostamp_eqb in E. destruct (r_stamp r); [discriminate|discriminate].
+    - repeat split; auto. exists (read_stamp w (r_name r)). split; [reflexivity|apply stamp_eqb_refl].
+  Qed.
+
+  Lemma settle_leaf w ex g r' :
+    JINV w ex -> valid w g -> ~ In g ex -> reserved (nm w g) = false ->
+    r_name r' = nm w g -> r_gen r' = false -> r_ovr r' = false -> r_failed r' = None -> r_csum r' = None ->
+    (forall c, r_checked r' = Some c -> (c <= R)%Z) ->
+    (exists chg, r_changed r' = Some chg /\ (chg <= R)%Z) ->
+    (exists s, r_stamp r' = Some s /\ stamp_eqb s (read_stamp w (nm w g)) = true) ->
+    JINV (putw w g r') ex /\ (forall x, ok w ex x -> ok (putw w g r') ex x) /\ ok (putw w g r') ex g.
+  Proof.
+    intros (Hinv & Hx & Hc & Hu) Hv Hex Hres Hname Hgen Hov Hfl Hcs Hb1 (chg & Hch & Hle) (s0 & Hs & Hst).
+    pose proof (putw_names w g r' Hname) as Hnm.
+    assert (Ha : is_alw w g = false) by (apply not_reserved_not_alw; exact Hres).
+    assert (Hvr : view_row R r' = r') by (apply view_not_always; rewrite Hname; exact Ha).
+    assert (Hok : ok (putw w g r') ex g).
+    { apply ok_intro.
+      - apply valid_putw; assumption.
+      - exact Hex.
+      - rewrite is_alw_putw by exact Hname. exact Ha.
+      - unfold rowbase. rewrite putw_ld_same by exact Hv. rewrite Hvr. split; [exact Hfl|]. split; [exists chg; auto|].
+        exists s0. split; [exact Hs|]. rewrite Hname. exact Hst.
+      - right. rewrite putw_ld_same by exact Hv. rewrite Hvr. unfold deps_of. rewrite Hov, Hgen. reflexivity.
+      - rewrite putw_ld_same by exact Hv. rewrite Hvr. unfold deps_of. rewrite Hov, Hgen. cbn. intros d []. }
+    split; [|split; [apply ok_put_all; auto|exact Hok]].
+    split; [|split; [|split]].
+    - apply INV_put; auto. intros c Hc'. rewrite Hch in Hc'. injection Hc' as <-. exact Hle.
+    - intros x Hx'. apply (valid_putw w g r' x Hname) in Hx'.
+      destruct (Nat.eq_dec x g) as [->|Hne].
+      + unfold rowx. rewrite get_row_putw_same by exact Hv. rewrite is_alw_putw by exact Hname.
+        rewrite (nm_names w _ g Hnm). rewrite putw_ld_same by exact Hv.
+        split; [exact Hcs|]. split; [intros _; rewrite Hch; discriminate|]. split; [intros _; exact Hres|].
+        split; [intros _; now left|]. intros _. split; [exact Hov|]. intro X. rewrite Hgen in X. discriminate.
+      + apply rowx_same with (w := w); [reflexivity|exact Hnm| |apply Hx; exact Hx'].
+        apply get_row_putw_other; assumption.
+    - intros d Hin Hm. cbn [putw dbs set_db put_row deps] in Hin. rewrite (nm_names w _ _ Hnm). apply Hc; assumption.
+    - intros x Hx'. destruct (Hu x Hx') as [A B]. split; [apply valid_putw; assumption|]. now rewrite (nm_names w _ x Hnm).
+  Qed.
+
+  (* ---------------------------------------------------------------- BuildJob::record_new_state, taken apart *)
+  Definition final_row (wi : world) (t : name) (sfr : row) : row :=
+    let sfr := upd_row sfr true false (r_checked sfr) (r_changed sfr) (r_failed sfr) (r_stamp sfr) (r_csum sfr) in
+    if is_checked R sfr || is_changed R sfr
+    then upd_row sfr (r_gen sfr) (r_ovr sfr) (r_checked sfr) (r_changed sfr) (r_failed sfr) (Some (read_stamp wi t)) (r_csum sfr)
+    else set_changed R (update_stamp R wi (upd_row sfr (r_gen sfr) (r_ovr sfr) (r_checked sfr) (r_changed sfr)
+                                                   (r_failed sfr) (r_stamp sfr) None)).
+
+  Definition install (t : name) (stdout : option (list N)) (has_tmp : bool) (w : world) : world :=
+    match stdout, has_tmp with
+    | Some content, false =>
+        rename_file (write_file (remove_file w (tmp_of t)) (tmp_of t) content None) (tmp_of t) t
+    | _, true => rename_file w (tmp_of t) t
+    | None, false => remove_file w t
+    end.
+
+  Lemma install_dbs t so ht w : dbs (install t so ht w) = dbs w.
+  Proof. unfold install. destruct so, ht; rewrite ?dbs_rename_file, ?dbs_write_file, ?dbs_remove_file; reflexivity. Qed.
+  Lemma updepth_rename w a b : updepth (rename_file w a b) = updepth w.
+  Proof. unfold rename_file. destruct (fs_get (fs w) a); reflexivity. Qed.
+  Lemma install_updepth t so ht w : updepth (install t so ht w) = updepth w.
+  Proof. unfold install. destruct so, ht; rewrite ?updepth_rename; reflexivity. Qed.
+  Lemma install_other t so ht w m : m <> t -> m <> tmp_of t -> fs_get (fs (install t so ht w)) m = fs_get (fs w) m.
+  Proof.
+    intros H1 H2. unfold install. destruct so, ht;
+      rewrite ?get_rename_other by assumption; rewrite ?get_write_other by congruence;
+      rewrite ?get_remove_other by congruence; reflexivity.
+  Qed.
+
+  Lemma record_success t f sf before rc stdout has_tmp w :
+    snd (record_new_state R t f sf before rc stdout has_tmp w) = 0%Z ->
+    fst (record_new_state R t f sf before rc stdout has_tmp w)
+    = putw (set_db (install t stdout has_tmp w) (zap_deps2 (dbs w) f)) f
+           (final_row (install t stdout has_tmp w) t (load R (dbs w) f)).
+  Proof.
+    unfold record_new_state.
+    match goal with
+    | |- context [if Z.eqb ?rv 0 then _ else _] => destruct (Z.eqb rv 0) eqn:Erv
+    end.
+    2:{ cbn [snd]. intro X. rewrite X in Erv. discriminate. }
+    intros _. fold (install t stdout has_tmp w). set (wi := install t stdout has_tmp w).
+    assert (Hdb : dbs wi = dbs w) by apply install_dbs.
+    unfold final_row. cbv zeta. rewrite <- Hdb.
+    match goal with |- context [if ?b then _ else _] => destruct b end; cbn [fst]; unfold putw; cbn [dbs set_db]; reflexivity.
+  Qed.
+
+  Lemma record_failure t f sf before rc stdout has_tmp w :
+    snd (record_new_state R t f sf before rc stdout has_tmp w) <> 0%Z ->
+    fst (record_new_state R t f sf before rc stdout has_tmp w)
+    = putw (set_db (remove_file w (tmp_of t)) (zap_deps2 (dbs w) f)) f (set_failed R (remove_file w (tmp_of t)) sf).
+  Proof.
+    unfold record_new_state.
+    match goal with
+    | |- context [if Z.eqb ?rv 0 then _ else _] => destruct (Z.eqb rv 0) eqn:Erv
+    end.
+    { match goal with |- snd (let '(_, _) := ?X in _) <> _ -> _ => destruct X end. cbn [snd].
+      apply Z.eqb_eq in Erv. intro X. contradiction. }
+    intros _. cbn [fst]. reflexivity.
+  Qed.
+
+  Definition noov_at (w : world) (f : fid) : Prop :=
+    r_ovr (get_row (dbs w) f) = false /\
+    (r_gen (get_row (dbs w) f) = true -> exists s, r_stamp (get_row (dbs w) f) = Some s /\
+       (stamp_eqb s (read_stamp w (nm w f)) = true \/ read_stamp w (nm w f) = SMissing)).
+
+  Lemma update_stamp_facts w r :
+    let r' := update_stamp R w r in
+    r_name r' = r_name r /\ r_gen r' = r_gen r /\ r_checked r' = r_checked r /\ r_csum r' = r_csum r /\
+    (exists s, r_stamp r' = Some s /\ stamp_eqb s (read_stamp w (r_name r)) = true) /\
+    (r' = r /\ r_stamp r <> None \/ (r_changed r' = Some R /\ r_ovr r' = false /\ r_failed r' = None)).
+  Proof.
+    cbv zeta. unfold update_stamp.
+    destruct (ostamp_eqb (r_stamp r) (read_stamp w (r_name r))) eqn:E.
+    - repeat split; auto.
+      + unfold ostamp_eqb in E. destruct (r_stamp r) as [s|]; [exists s; auto|discriminate].
+      + left. split; [reflexivity|]. unfold ostamp_eqb in E. destruct (r_stamp r); discriminate.
+    - cbn [set_changed upd_row r_name r_gen r_checked r_csum r_stamp r_changed r_ovr r_failed]. repeat split; auto.
+      exists (read_stamp w (r_name r)). split; [reflexivity|apply stamp_eqb_refl].
+  Qed.
+
+  (* the three steps of recording, each a step of the job on [f] *)
+  Lemma record_steps ex f w wi r' :
+    ~ In f ex -> JINV w (f :: ex) -> PROJ w -> watched (nm w f) = false ->
+    dbs wi = dbs w -> updepth wi = updepth w ->
+    (forall m, m <> nm w f -> m <> tmp_of (nm w f) -> fs_get (fs wi) m = fs_get (fs w) m) ->
+    r_name r' = nm w f ->
+    (forall c, r_checked r' = Some c -> (c <= R)%Z) -> (forall c, r_changed r' = Some c -> (c <= R)%Z) ->
+    r_csum r' = None -> (r_stamp r' <> None -> r_changed r' <> None) ->
+    (marked (view_row R r') = true -> r_failed r' = None \/ r_failed r' = Some R) ->
+    let w' := putw (set_db wi (zap_deps2 (dbs w) f)) f r' in
+    jstep (f :: ex) ex w w' /\ fs w' = fs wi /\ get_row (dbs w') f = r' /\ nm w' f = nm w f /\
+    (forall d, In d (deps (dbs w')) -> d_target d = f -> In d (deps (dbs w)) /\ d_delete d = false).
+  Proof.
+    intros Hf Hj (Pw & _) Hwt Hdb Hup Hfs Hname Hb1 Hb2 Hcs Hsc Hmf. cbv zeta.
+    set (t := nm w f) in *. assert (Hfin : In f (f :: ex)) by now left.
+    pose proof Hj as (_ & _ & _ & Hu). destruct (Hu f Hfin) as [Vf _].
+    (* files *)
+    destruct (fs_step_JINV w wi (f :: ex) f Hj Hfin Hdb) as [J1 M1].
+    { intros n Hn. unfold own_files in Hn. apply orb_false_iff in Hn as [N1 N2]. apply Hfs.
+      - intro X. subst n. fold t in N1. rewrite bytes_eqb_refl in N1. discriminate.
+      - intro X. subst n. fold t in N2. rewrite bytes_eqb_refl in N2. discriminate. }
+    (* the flagged rows go *)
+    destruct (zap2_JINV wi (f :: ex) f J1 Hfin) as (E2 & J2 & M2). rewrite Hdb in *.
+    set (wz := set_db wi (zap_deps2 (dbs w) f)) in *.
+    assert (Hnmz : forall x, nm wz x = nm w x) by (intro x; unfold nm, wz; cbn [dbs set_db zap_deps2 rows get_row]; reflexivity).
+    assert (Vfz : valid wz f) by exact Vf.
+    assert (Hnamez : r_name r' = nm wz f) by (rewrite Hnmz; exact Hname).
+    destruct (putex_JINV wz (f :: ex) f r' J2 Hfin Hnamez Hb1 Hb2 Hcs Hsc Hmf) as [J3 M3].
+    set (w' := putw wz f r') in *.
+    assert (Hnm' : names (dbs w') = names (dbs w)).
+    { unfold w'. rewrite putw_names by exact Hnamez. reflexivity. }
+    split; [|split; [reflexivity|split; [apply get_row_putw_same; exact Vfz|split]]].
+    - split; [exists []; rewrite Hnm'; now rewrite app_nil_r|].
+      split.
+      { split; [cbn [w' putw wz updepth set_db]; exact Hup|]. intros n Hn. cbn [w' putw wz fs set_db]. apply Hfs.
+        - intro X. subst n. unfold t in Hn. congruence.
+        - intro X. subst n. pose proof (Pw _ Hn) as Y. rewrite reserved_tmp_of in Y. discriminate. }
+      split; [exact J3|]. split; [intros g Hg; apply M3, M2, M1; exact Hg|].
+      intros x Hx. assert (Hne : x <> f) by (intro X; subst x; contradiction).
+      destruct (Hu x (or_intror Hx)) as [Vx _]. split.
+      + unfold w'. rewrite get_row_putw_other by assumption. reflexivity.
+      + intros d Hd. cbn [w' putw wz dbs set_db put_row deps]. apply (deps_other_zap2 (deps (dbs w)) f d). congruence.
+    - unfold nm. unfold w'. rewrite (get_row_putw_same wz f r' Vfz). exact Hname.
+    - intros d Hin Ht. cbn [w' putw wz dbs set_db put_row deps zap_deps2] in Hin. apply filter_In in Hin as [Hin Hfl].
+      split; [exact Hin|]. rewrite Ht, Nat.eqb_refl in Hfl. cbn [andb] in Hfl. now apply negb_true_iff in Hfl.
+  Qed.
+
+  Definition leave_ok (w : world) (ex : list fid) (f : fid) : Prop :=
+    (marked (ldw w f) = true -> r_failed (ldw w f) = None -> ok w ex f) /\ noov_at w f.
+
+  (* facts about the row of the job's target, as it stands while the script runs *)
+  Definition own_row (w : world) (ex : list fid) (f : fid) : Prop :=
+    marked (ldw w f) = false /\ r_ovr (ldw w f) = false.
+
+  Lemma record_spec ex f w sf before rc stdout has_tmp :
+    ~ In f ex -> JINV w (f :: ex) -> PROJ w -> watched (nm w f) = false -> reserved (nm w f) = false ->
+    sf = ldw w f -> own_row w ex f -> GOODF w (f :: ex) f (fun _ => False) ->
+    let w' := fst (record_new_state R (nm w f) f sf before rc stdout has_tmp w) in
+    let rv := snd (record_new_state R (nm w f) f sf before rc stdout has_tmp w) in
+    jstep (f :: ex) ex w w' /\ leave_ok w' ex f /\ (rv = 0%Z -> ok w' ex f).
+  Proof.
+    intros Hf Hj Hp Hwt Hres Hsf [Hum Hov] Hg. cbv zeta. set (t := nm w f) in *.
+    assert (Hfin : In f (f :: ex)) by now left.
+    pose proof Hj as (((Hnd & He & Hb) & _) & Hx & Hc & Hu). destruct (Hu f Hfin) as [Vf _].
+    assert (Ha : is_alw w f = false) by (apply not_reserved_not_alw; exact Hres).
+    assert (Hld : ldw w f = get_row (dbs w) f) by (apply ld_not_alw; exact Ha).
+    destruct (Hx f Vf) as (X1 & X2 & _ & _ & _). destruct (Hb f Vf) as [B1 B2].
+    destruct (Z.eq_dec (snd (record_new_state R t f sf before rc stdout has_tmp w)) 0) as [E0|E0].
+    - (* success *)
+      rewrite (record_success t f sf before rc stdout has_tmp w E0).
+      set (wi := install t stdout has_tmp w).
+      set (fin := final_row wi t (load R (dbs w) f)).
+      (* the final row *)
+      assert (Hfin_facts : r_name fin = t /\ r_gen fin = true /\ r_ovr fin = false /\ r_failed fin = None /\
+                           r_csum fin = None /\ r_changed fin = Some R /\ r_checked fin = r_checked (ldw w f) /\
+                           exists s, r_stamp fin = Some s /\ stamp_eqb s (read_stamp wi t) = true).
+      { unfold fin, final_row. cbv zeta.
+        assert (Em : (is_checked R (upd_row (ldw w f) true false (r_checked (ldw w f)) (r_changed (ldw w f)) (r_failed (ldw w f)) (r_stamp (ldw w f)) (r_csum (ldw w f)))
+                      || is_changed R (upd_row (ldw w f) true false (r_checked (ldw w f)) (r_changed (ldw w f)) (r_failed (ldw w f)) (r_stamp (ldw w f)) (r_csum (ldw w f)))) = false) by exact Hum.
+        rewrite Em.
+        match goal with |- context [update_stamp R wi ?s1] => destruct (update_stamp_facts wi s1) as (U1 & U2 & U3 & U4 & (s0 & U5 & U6) & _) end.
+        cbn [set_changed upd_row r_name r_gen r_ovr r_failed r_csum r_changed r_checked r_stamp] in *.
+        rewrite U1, U2, U3, U4. rewrite ld_name. fold t.
+        repeat split; auto. exists s0. split; [exact U5|]. rewrite ld_name in U6. exact U6. }
+      destruct Hfin_facts as (F1 & F2 & F3 & F4 & F5 & F6 & F7 & (s0 & F8 & F9)).
+      destruct (record_steps ex f w wi fin Hf Hj Hp Hwt) as (J & Fs & Hrow & Hnm' & Hdeps); auto.
+      { apply install_dbs. } { apply install_updepth. } { intros m H1 H2. apply install_other; assumption. }
+      { intros c Hc'. rewrite F7, Hld in Hc'. apply B1. exact Hc'. }
+      { intros c Hc'. rewrite F6 in Hc'. injection Hc' as <-. lia. }
+      { intros _. rewrite F6. discriminate. }
+      set (w' := putw (set_db wi (zap_deps2 (dbs w) f)) f fin) in *.
+      assert (Ha' : is_alw w' f = false) by (unfold is_alw; rewrite Hnm'; exact Ha).
+      assert (Hld' : ldw w' f = fin) by (rewrite (ld_not_alw R w' f Ha'); exact Hrow).
+      pose proof J as (Jn & Jw & Jj & Jm & Jf).
+      assert (Hokf : ok w' ex f).
+      { apply ok_intro.
+        - destruct Jj as (_ & _ & _ & Hu'). exact (proj1 (Hu' f Hfin)).
+        - exact Hf.
+        - exact Ha'.
+        - unfold rowbase. rewrite Hld'. split; [exact F4|]. split; [exists R; split; [exact F6|lia]|].
+          exists s0. split; [exact F8|]. rewrite F1. unfold read_stamp in *. rewrite Fs. exact F9.
+        - left. rewrite Hld'. unfold marked, is_changed. rewrite F6, (OnceProofs.geb_self R Rpos). apply orb_true_r.
+        - intros d Hin. destruct (in_deps_of _ _ _ _ Hin) as [Hin' Ht]. destruct (Hdeps d Hin' Ht) as [Hin0 Hfl].
+          destruct (Hg d Hin0 Ht) as [X|[A B]]; [congruence|].
+          pose proof (JINV_edges w (f :: ex) Hj d Hin0) as (_ & Vs & _ & _ & Cw).
+          split.
+          + intro Hm. unfold exists_b, nm. rewrite (NAMES_get_row w w' _ Jn) by (destruct Vs; lia).
+            destruct Jw as [_ Jws]. rewrite Jws; [exact (A Hm)|exact (Cw Hm)].
+          + intro Hm. destruct (B Hm) as [Y|[]]. apply (ok_ex_shrink w' ex f). apply Jm. exact Y. }
+      split; [exact J|]. split; [|intros _; exact Hokf].
+      split; [intros _ _; exact Hokf|]. unfold noov_at. rewrite Hrow, Hnm'. split; [exact F3|].
+      intros _. exists s0. split; [exact F8|left]. unfold read_stamp in *. rewrite Fs. exact F9.
+    - (* failure *)
+      rewrite (record_failure t f sf before rc stdout has_tmp w E0).
+      set (wi := remove_file w (tmp_of t)). set (fr := set_failed R wi sf).
+      assert (Hfr : r_name fr = t /\ r_ovr fr = false /\ r_failed fr = Some R /\ r_csum fr = None /\
+                    r_checked fr = r_checked (ldw w f) /\
+                    (r_changed fr = r_changed (ldw w f) /\ r_stamp (ldw w f) <> None \/ r_changed fr = Some R) /\
+                    (r_gen fr = true -> exists s, r_stamp fr = Some s /\ stamp_eqb s (read_stamp wi t) = true)).
+      { unfold fr, set_failed. cbv zeta. destruct (update_stamp_facts wi sf) as (U1 & U2 & U3 & U4 & (s0 & U5 & U6) & U7).
+        cbn [upd_row r_name r_ovr r_failed r_csum r_checked r_changed r_gen r_stamp].
+        assert (Hsfn : r_name sf = t) by (rewrite Hsf; apply ld_name).
+        split; [rewrite U1; exact Hsfn|]. split.
+        { destruct U7 as [[E _]|(_ & O & _)]; [rewrite E, Hsf; exact Hov|exact O]. }
+        split; [reflexivity|]. split; [rewrite U4, Hsf, Hld; exact X1|]. split; [rewrite U3, Hsf; reflexivity|]. split.
+        { destruct U7 as [[E Hn]|(C & _ & _)]; [left; rewrite E, Hsf in *; auto|right; exact C]. }
+        intros _. exists s0. split; [exact U5|]. rewrite Hsfn in U6. exact U6. }
+      destruct Hfr as (G1 & G2 & G3 & G4 & G5 & G6 & G7).
+      assert (S1 : dbs wi = dbs w) by reflexivity.
+      assert (S2 : updepth wi = updepth w) by reflexivity.
+      assert (S3 : forall m, m <> t -> m <> tmp_of t -> fs_get (fs wi) m = fs_get (fs w) m)
+        by (intros m _ H2; unfold wi; apply get_remove_other; congruence).
+      assert (S4 : forall c, r_checked fr = Some c -> (c <= R)%Z)
+        by (intros c Hc'; rewrite G5, Hld in Hc'; apply B1; exact Hc').
+      assert (S5 : forall c, r_changed fr = Some c -> (c <= R)%Z).
+      { intros c Hc'. destruct G6 as [[G6 _]|G6]; rewrite G6 in Hc'; [rewrite Hld in Hc'; apply B2; exact Hc'|injection Hc' as <-; lia]. }
+      assert (S6 : r_stamp fr <> None -> r_changed fr <> None).
+      { intro Hs. destruct G6 as [[G6 Hn]|G6]; rewrite G6; [|discriminate].
+        rewrite Hld. apply X2. rewrite <- Hld. exact Hn. }
+      assert (S7 : marked (view_row R fr) = true -> r_failed fr = None \/ r_failed fr = Some R) by (intros _; right; exact G3).
+      destruct (record_steps ex f w wi fr Hf Hj Hp Hwt S1 S2 S3 G1 S4 S5 G4 S6 S7) as (J & Fs & Hrow & Hnm' & Hdeps).
+      set (w' := putw (set_db wi (zap_deps2 (dbs w) f)) f fr) in *.
+      assert (Ha' : is_alw w' f = false) by (unfold is_alw; rewrite Hnm'; exact Ha).
+      assert (Hld' : ldw w' f = fr) by (rewrite (ld_not_alw R w' f Ha'); exact Hrow).
+      split; [exact J|]. split; [|intro X; contradiction].
+      split; [intros _ Hfl; rewrite Hld', G3 in Hfl; discriminate|].
+      unfold noov_at. rewrite Hrow, Hnm'. split; [exact G2|].
+      intro Hgn. destruct (G7 Hgn) as (s0 & T1 & T2). exists s0. split; [exact T1|left].
+      unfold read_stamp in *. rewrite Fs. exact T2.
+  Qed.
+
   (* ---------------------------------------------------------------- a check that does not answer "clean" *)
   Lemma walk_not_clean_inv (I : world -> Prop) (Q : dep -> row -> Prop) isd f r :
     (forall w1 c1 d rs v w' c' evs, Q d rs -> d_mode d = DModified -> I w1 ->
@@ -1045,51 +1380,4 @@ Section Job.
     - eapply (is_dirty_no_need ex); eauto.
   Qed.
 
-  (* ================================================================ entering and leaving a job *)
-  Lemma ok_ex_grow w ex f : (~ ok w ex f) -> forall g, ok w ex g -> ok w (f :: ex) g.
-  Proof.
-    intros Hn g Hok. induction Hok as [g Hv Hex Ha Hb Hm Hd] using ok_ind2.
-    assert (Hokg : ok w ex g).
-    { apply ok_intro; auto. intros d Hin. destruct (Hd d Hin) as [A B]. split; [exact A|]. intro X. exact (proj1 (B X)). }
-    apply ok_intro; auto.
-    - intros [X|X]; [subst g; contradiction|contradiction].
-    - intros d Hin. destruct (Hd d Hin) as [A B]. split; [exact A|]. intro X. exact (proj2 (B X)).
-  Qed.
-
-  Lemma ok_ex_shrink w ex f : forall g, ok w (f :: ex) g -> ok w ex g.
-  Proof.
-    intros g Hok. induction Hok as [g Hv Hex Ha Hb Hm Hd] using ok_ind2.
-    apply ok_intro; auto.
-    - intro X. apply Hex. now right.
-    - intros d Hin. destruct (Hd d Hin) as [A B]. split; [exact A|]. intro X. exact (proj2 (B X)).
-  Qed.
-
-  Lemma JINV_enter w ex f :
-    JINV w ex -> valid w f -> watched (nm w f) = false -> ~ ok w ex f -> JINV w (f :: ex).
-  Proof.
-    intros ((Hw & Hmark) & Hx & Hc & Hu) Hv Hwt Hn.
-    split; [split; [exact Hw|]|split; [|split; [exact Hc|]]].
-    - intros g Hg Hex Ha Hm Hfl. apply ok_ex_grow; [exact Hn|]. apply Hmark; auto. intro X. apply Hex. now right.
-    - intros g Hg. destruct (Hx g Hg) as (A1 & A2 & A3 & A4 & A5). split; [exact A1|]. split; [exact A2|].
-      split; [exact A3|]. split; [exact A4|]. intro X. apply A5. intro Y. apply X. now right.
-    - intros x [<-|Hx']; [split; assumption|apply Hu; exact Hx'].
-  Qed.
-
-  Lemma JINV_leave w ex f :
-    JINV w (f :: ex) ->
-    (marked (ldw w f) = true -> r_failed (ldw w f) = None -> ok w ex f) ->
-    (r_ovr (get_row (dbs w) f) = false /\
-     (r_gen (get_row (dbs w) f) = true -> exists s, r_stamp (get_row (dbs w) f) = Some s /\
-        (stamp_eqb s (read_stamp w (nm w f)) = true \/ read_stamp w (nm w f) = SMissing))) ->
-    JINV w ex.
-  Proof.
-    intros ((Hw & Hmark) & Hx & Hc & Hu) Hself Hnoov.
-    split; [split; [exact Hw|]|split; [|split; [exact Hc|]]].
-    - intros g Hg Hex Ha Hm Hfl. destruct (Nat.eq_dec g f) as [->|Hne]; [auto|].
-      apply (ok_ex_shrink w ex f). apply Hmark; auto. intros [X|X]; [congruence|contradiction].
-    - intros g Hg. destruct (Hx g Hg) as (A1 & A2 & A3 & A4 & A5). split; [exact A1|]. split; [exact A2|].
-      split; [exact A3|]. split; [exact A4|]. intro X. destruct (Nat.eq_dec g f) as [->|Hne]; [exact Hnoov|].
-      apply A5. intros [Y|Y]; [congruence|contradiction].
-    - intros x Hx'. apply Hu. now right.
-  Qed.
 End Job.
